@@ -2,6 +2,9 @@ package checks
 
 import (
 	"fmt"
+	"io"
+	"os"
+	"os/exec"
 	"strconv"
 	"strings"
 
@@ -36,6 +39,44 @@ func c17(tier string, args []string) int {
 	}
 	// first in DESCENDING order (a fresh process): an answer must not depend on which positions
 	// were asked before
+	// boundary alphabet of validator indices through GetSigningRoot - asked as the very first
+	// thing this process asks of the package (whatever the package remembers between calls is
+	// empty then), and again after the whole list went through it
+	idxs := C17BoundaryIndices()
+	boundary := func(when string) {
+		for round := 0; round < 2; round++ { // each index twice: a second answer may come from a memory
+			for _, i := range idxs {
+				got, err := wc_rotation.GetSigningRoot(i)
+				evals++
+				want := oracle.SpecSigningRoot(i)
+				if err != nil || got != want {
+					r.Violation("C17/wrong-signing-root-boundary", fmt.Sprintf("validator index %d (asked %s, pass %d): GetSigningRoot = %x (err %v), spec %x", i, when, round+1, got, err, want), map[string]interface{}{"index": i, "when": when})
+				}
+			}
+		}
+		distinct += len(idxs)
+	}
+	// ... in processes of their own, in both orders of the alphabet
+	for _, order := range []string{"ascending", "descending"} {
+		exe, err := os.Executable()
+		if err != nil {
+			r.Infra("os.Executable: %v", err)
+		}
+		out, err := exec.Command(exe, "c17-boundary", order).Output()
+		if err != nil {
+			r.Violation("C17/boundary-process-fails", fmt.Sprintf("a fresh process asking the boundary indices (%s) ended with %v: %s", order, err, clip(string(out), 300)), map[string]string{"order": order})
+			continue
+		}
+		for _, l := range strings.Split(string(out), "\n") {
+			if strings.HasPrefix(l, "BAD ") {
+				r.Violation("C17/wrong-signing-root-boundary", "in a fresh process ("+order+" order of the alphabet): "+l[4:], map[string]string{"order": order, "what": l[4:]})
+			}
+			if strings.HasPrefix(l, "ASKED ") {
+				n, _ := strconv.Atoi(l[6:])
+				evals += n
+			}
+		}
+	}
 	for pos := positions - 1; pos >= 0; pos -= 1 {
 		m, err, pv := call(pos)
 		evals++
@@ -86,27 +127,7 @@ func c17(tier string, args []string) int {
 			r.Sample(map[string]interface{}{"position": pos, "validator_index": idx, "signing_root": fmt.Sprintf("%x", m.Payload)})
 		}
 	}
-	// boundary alphabet of validator indices through GetSigningRoot
-	var idxs []uint64
-	idxs = append(idxs, 0, 1, ^uint64(0), ^uint64(0)-1)
-	for k := 8; k <= 56; k += 8 {
-		p := uint64(1) << uint(k)
-		idxs = append(idxs, p-1, p, p+1)
-	}
-	for b := 0; b < 8; b++ {
-		for _, v := range []uint64{1, 0x7f, 0x80, 0xff} {
-			idxs = append(idxs, v<<uint(8*b))
-		}
-	}
-	for _, i := range idxs {
-		got, err := wc_rotation.GetSigningRoot(i)
-		evals++
-		want := oracle.SpecSigningRoot(i)
-		if err != nil || got != want {
-			r.Violation("C17/wrong-signing-root-boundary", fmt.Sprintf("validator index %d: GetSigningRoot = %x (err %v), spec %x", i, got, err, want), map[string]uint64{"index": i})
-		}
-		distinct++
-	}
+	boundary("after-the-list")
 	r.Sample(map[string]interface{}{"boundary_indices": len(idxs)})
 	// out-of-range positions
 	for _, pos := range []int{-1, -2, -18632, -1 << 31, -1 << 62, positions, positions + 1, positions + 2, 1 << 20, 1<<31 - 1, 1 << 40} {
@@ -143,4 +164,44 @@ func c17(tier string, args []string) int {
 	r.Set("positions_checked", positions)
 	r.Set("rule", "all 18632 baked positions through requests.ReconstructBakedMessage against the independent spec implementation (one canonical decimal index each, no duplicates), a boundary alphabet of uint64 indices through wc_rotation.GetSigningRoot, out-of-range positions (negative, trailing empty line, beyond) directly and through TasksToMessages")
 	return finish(r)
+}
+
+// C17BoundaryIndices is the alphabet of validator indices asked of GetSigningRoot directly.
+func C17BoundaryIndices() []uint64 {
+	var idxs []uint64
+	idxs = append(idxs, 0, 1, ^uint64(0), ^uint64(0)-1)
+	for k := 8; k <= 56; k += 8 {
+		p := uint64(1) << uint(k)
+		idxs = append(idxs, p-1, p, p+1)
+	}
+	for b := 0; b < 8; b++ {
+		for _, v := range []uint64{1, 0x7f, 0x80, 0xff} {
+			idxs = append(idxs, v<<uint(8*b))
+		}
+	}
+	return idxs
+}
+
+// C17BoundaryChild is a process of its own that asks the boundary indices first thing (each
+// twice) and prints what differs from the spec.
+func C17BoundaryChild(order string, out io.Writer) int {
+	idxs := C17BoundaryIndices()
+	if order == "descending" {
+		for i, j := 0, len(idxs)-1; i < j; i, j = i+1, j-1 {
+			idxs[i], idxs[j] = idxs[j], idxs[i]
+		}
+	}
+	n := 0
+	for round := 0; round < 2; round++ {
+		for _, i := range idxs {
+			got, err := wc_rotation.GetSigningRoot(i)
+			n++
+			want := oracle.SpecSigningRoot(i)
+			if err != nil || got != want {
+				fmt.Fprintf(out, "BAD validator index %d (pass %d): GetSigningRoot = %x (err %v), spec %x\n", i, round+1, got, err, want)
+			}
+		}
+	}
+	fmt.Fprintf(out, "ASKED %d\n", n)
+	return 0
 }
